@@ -353,3 +353,54 @@ if __name__ == "__main__":
     for w in r["warnings"]:
         print("%(unit)s.c:%(line)s %(function)s: [%(kind)s] %(var)s (fresh from %(callee)s at line %(def_line)s)" % w)
     print(r["functions"], "functions,", r["unregistered_sexp_locals"], "unregistered sexp locals,", len(r["warnings"]), "warnings")
+
+
+def analyse_lib(d, work, path):
+    """search aid for ONE C file of a compiled library (path relative to the build dir, e.g. lib/chibi/json.c): the
+    may-allocate set of the core is extended by the file's own functions (fixpoint over its LLVM IR call graph)"""
+    import re as _re
+    flags = VT.build_flags(d) + ["-I", "include"]
+    alloc, defined = VT.may_allocate(d, VT.build_flags(d), work)
+    ll = os.path.join(work, "gcvars-lib.ll")
+    r = subprocess.run(["clang", "-O0", "-S", "-emit-llvm", "-w"] + flags + ["-o", ll, path], cwd=d, capture_output=True, text=True, timeout=300)
+    if r.returncode != 0:
+        raise VT.Unsupported("clang -emit-llvm %s failed: %s" % (path, r.stderr[-300:]))
+    calls, cur, mine = {}, None, set()
+    for l in open(ll):
+        m = _re.match(r"define .*?@([\w.]+)\(", l)
+        if m:
+            cur = m.group(1)
+            mine.add(cur)
+            calls.setdefault(cur, set())
+            continue
+        if l.startswith("}"):
+            cur = None
+            continue
+        if cur and _re.search(r"\b(call|invoke)\b", l):
+            m = _re.search(r"@([\w.]+)\(", l)
+            if m:
+                calls[cur].add(m.group(1))
+            elif " asm " not in l:
+                calls[cur].add("(indirect)")
+    os.unlink(ll)
+    alloc = set(alloc) | {"(indirect)"}
+    changed = True
+    while changed:
+        changed = False
+        for f, cs in calls.items():
+            if f not in alloc and cs & alloc:
+                alloc.add(f)
+                changed = True
+    p = os.path.join(work, "gcvars-lib.json")
+    with open(p, "w") as fh:
+        r = subprocess.run(["clang", "-fsyntax-only", "-w"] + flags + ["-Xclang", "-ast-dump=json", path], cwd=d, stdout=fh, stderr=subprocess.PIPE, text=True, timeout=600)
+    if r.returncode != 0:
+        raise VT.Unsupported("clang ast-dump of %s failed: %s" % (path, r.stderr[-300:]))
+    out = []
+    for fn in top_level_functions(p):
+        if fn["name"] not in mine:
+            continue
+        annotate_lines(fn, first_line(fn) or 0)
+        out += Fn(fn, alloc, path).run()
+    os.unlink(p)
+    return out
